@@ -59,7 +59,7 @@ func init() {
 	core.Register(&core.Monitor{
 		ID:   "C25",
 		Race: true,
-		Rule: "one case = one connection of a kind from {lsq, ltm, lts, ps, ntc-mixed (lsq+ltm+lts on one connection)} with 1..8 caller goroutines (one third of the cases 8) and at most 60 calls per protocol instance, op lists from the PRNG (lsq: GetChainBlockNo, GetEpochNo, GetStakeDelegDeposits(id), AcquireVolatileTip / AcquireImmutableTip / Acquire(point incl. refused points) each in first-acquire and re-acquire position (38% of the lsq calls), implicit acquires by queries, Release; ltm: HasTx(id), NextTx, GetSizes, Acquire, Release; lts: SubmitTx(era 0..7, tx); ps: GetPeers(0..12)); 15% of the node-to-client cases lose the connection after a PRNG number of requests, 25% run against a server that delays some replies by 1-3 ms. One evaluation = one protocol instance's history checked by porcupine; it is non-trivial when at least 4 calls were answered; distinct by the history shape (per call in Call order: goroutine, kind, outcome class, number of calls open at that moment)",
+		Rule: "one case = one connection of a kind from {lsq, ltm, lts, ps, ntc-mixed (lsq+ltm+lts on one connection)} with 1..8 caller goroutines (one third of the cases 8) and at most 60 calls per protocol instance, op lists from the PRNG (lsq: GetChainBlockNo, GetEpochNo, GetEraHistory, GetSystemStart, GetChainPoint, GetStakeDelegDeposits(id), every result tagged with the sequence number of the query it answers; in half of the lsq cases goroutine 0 starts with a repetition block of one query kind: twice within one acquisition, again after a re-acquire, again after release + implicit acquire; AcquireVolatileTip / AcquireImmutableTip / Acquire(point incl. refused points) each in first-acquire and re-acquire position (38% of the lsq calls), implicit acquires by queries, Release; ltm: HasTx(id), NextTx, GetSizes, Acquire, Release; lts: SubmitTx(era 0..7, tx); ps: GetPeers(0..12)); 15% of the node-to-client cases lose the connection after a PRNG number of requests, 25% run against a server that delays some replies by 1-3 ms. One evaluation = one protocol instance's history checked by porcupine; it is non-trivial when at least 4 calls were answered; distinct by the history shape (per call in Call order: goroutine, kind, outcome class, number of calls open at that moment)",
 		MinNontrivial: 150,
 		RaceAnchors: []string{
 			"localstatequery.(*Client)", "localtxmonitor.(*Client)", "localtxsubmission.(*Client)", "peersharing.(*Client)",
